@@ -169,6 +169,9 @@ def gen_case(d, family='small', enzymes=None, n_small=(1, 5), ref_kw=None, alt=T
             records += vargen.gen_small(d, ref, tid, d.randint(1, 3), spread=25)
     opts = gen_opts(d, enzymes, alt=alt and family in ('small', 'multi'), limits=limits,
         exceptions=exceptions)
+    if alt and family not in ('small', 'multi') and d.chance(0.25):
+        # W>F reassignment on fusion / circRNA / alternative-splicing calls as well
+        opts['w2f'] = True
     if os.environ.get('VERIF_CFG'):     # calibration runs only
         import json as _json
         cfg = _json.loads(os.environ['VERIF_CFG'])
